@@ -165,7 +165,7 @@ func c07Run(r *vReport, cs *c07Case, class string) {
 func TestVerifC07(t *testing.T) {
 	r := vNewReport("C07")
 	defer r.Write(t)
-	r.Extra["rule"] = "12 expression constructs (lexer, parser, semantic first/inner token, untrusted input, availability, bare if:) x extra indentation 0-4 x lines above 0-3 x block/flow x plain/single/double x prefix 0-5 x preceding placeholders 0-2 x spaces after ${{ 0-3; every non-exempt scalar position of the 4 seeds x plain/single/double x 0-3 spaces with an undefined variable; key constructs (unexpected, duplicate) and value constructs (enum, shell name, glob character at index 0-4) x indentation x lines above x style x quoting; plus line/column range of every non-YAML-level diagnostic over positions x fragments of the workflow seeds. class = construct x style x quoting; all non-trivial"
+	r.Extra["rule"] = "12 expression constructs (lexer, parser, semantic first/inner token, untrusted input, availability, bare if:) x extra indentation 0-4 x lines above 0-3 x block/flow x plain/single/double x prefix 0-5 x preceding placeholders 0-2 x spaces after ${{ 0-3; every non-exempt scalar position of the 4 seeds x plain/single/double x 0-3 spaces with an undefined variable; 26 per-rule templates (ids, env names, permission scopes, runner labels, needs, events, activity types, cron, matrix duplicates / exclude, action inputs and refs, timeout, credentials, if-cond, workflow call, dispatch default, input type, unexpected / duplicate keys) x quoting x lines above with the marker's position as expectation; key constructs (unexpected, duplicate) and value constructs (enum, shell name, glob character at index 0-4) x indentation x lines above x style x quoting; plus line/column range of every non-YAML-level diagnostic over positions x fragments of the workflow seeds. class = construct x style x quoting; all non-trivial"
 	r.Extra["assumptions"] = []string{"one-line ASCII scalars without escape sequences only (as the statement says)"}
 	if raw := vReplayInput(); raw != nil {
 		var cs c07Case
@@ -278,6 +278,9 @@ func TestVerifC07(t *testing.T) {
 			}
 		}
 	}
+	// ---- one template per rule that reports at a key or a scalar value: the marker records where the
+	// offending key / value starts; x plain / single / double quoting x lines above
+	c07RuleTemplates(r, &idx)
 	// ---- several diagnosed placeholders in one string: every reported diagnostic must sit at the
 	// token of the placeholder it names (the names differ per slot), whatever precedes it — in
 	// particular placeholders that themselves failed (scripts continue after a semantic error)
@@ -492,4 +495,71 @@ func c07RawMatrixValue(np string) bool {
 	}
 	rest := strings.TrimPrefix(np, m)
 	return strings.HasPrefix(rest, "*[]") || strings.HasPrefix(rest, "include[].") || strings.HasPrefix(rest, "exclude[].")
+}
+
+// c07Templates: «text» marks the offending scalar (rendered plain, single- and double-quoted);
+// its start is the expected position of the one diagnostic matching the regexp.
+var c07Templates = []struct{ name, tmpl, msg string }{
+	{"step-id", "on: push\njobs:\n  a:\n    runs-on: ubuntu-latest\n    steps:\n      - id: «a b»\n        run: echo\n", `^invalid step ID "a b"`},
+	{"job-id", "on: push\njobs:\n  «1ab»:\n    runs-on: ubuntu-latest\n    steps:\n      - run: echo\n", `^invalid job ID "1ab"`},
+	{"env-var-name", "on: push\njobs:\n  a:\n    runs-on: ubuntu-latest\n    env:\n      OK: 1\n      «a b»: 1\n    steps:\n      - run: echo\n", `^environment variable name "a b" is invalid`},
+	{"permission-scope", "on: push\npermissions:\n  contents: read\n  «nosuchscope»: read\njobs:\n  a:\n    runs-on: ubuntu-latest\n    steps:\n      - run: echo\n", `^unknown permission scope "nosuchscope"`},
+	{"runner-label", "on: push\njobs:\n  a:\n    runs-on: «nosuchlabel»\n    steps:\n      - run: echo\n", `^label "nosuchlabel" is unknown`},
+	{"runner-label-flow-second", "on: push\njobs:\n  a:\n    runs-on: [ubuntu-latest, «nosuchlabel»]\n    steps:\n      - run: echo\n", `^label "nosuchlabel" is unknown`},
+	{"runner-label-block-second", "on: push\njobs:\n  a:\n    runs-on:\n      - ubuntu-latest\n      - «nosuchlabel»\n    steps:\n      - run: echo\n", `^label "nosuchlabel" is unknown`},
+	{"needs-duplicate", "on: push\njobs:\n  a:\n    runs-on: ubuntu-latest\n    steps:\n      - run: echo\n  b:\n    needs: [a, «A»]\n    runs-on: ubuntu-latest\n    steps:\n      - run: echo\n", `^job ID "A" duplicates in "needs" section`},
+	{"event-name-scalar", "on: «nosuchevent»\njobs:\n  a:\n    runs-on: ubuntu-latest\n    steps:\n      - run: echo\n", `^unknown Webhook event "nosuchevent"`},
+	{"event-name-flow-second", "on: [push, «nosuchevent»]\njobs:\n  a:\n    runs-on: ubuntu-latest\n    steps:\n      - run: echo\n", `^unknown Webhook event "nosuchevent"`},
+	{"event-name-key", "on:\n  push:\n  «nosuchevent»:\njobs:\n  a:\n    runs-on: ubuntu-latest\n    steps:\n      - run: echo\n", `^unknown Webhook event "nosuchevent"`},
+	{"webhook-type", "on:\n  issues:\n    types: [opened, «bogus»]\njobs:\n  a:\n    runs-on: ubuntu-latest\n    steps:\n      - run: echo\n", `^invalid activity type "bogus"`},
+	{"cron", "on:\n  schedule:\n    - cron: «0 0 * *»\njobs:\n  a:\n    runs-on: ubuntu-latest\n    steps:\n      - run: echo\n", `^invalid CRON format "0 0 \* \*"`},
+	{"matrix-duplicate", "on: push\njobs:\n  a:\n    runs-on: ubuntu-latest\n    strategy:\n      matrix:\n        k: [x, y, «x»]\n    steps:\n      - run: echo\n", `^duplicate value "x" is found in matrix "k"`},
+	{"exclude-unknown-key", "on: push\njobs:\n  a:\n    runs-on: ubuntu-latest\n    strategy:\n      matrix:\n        k: [x]\n        exclude:\n          - «nokey»: 1\n    steps:\n      - run: echo\n", `^"nokey" in "exclude" section does not exist in matrix`},
+	{"exclude-no-match", "on: push\njobs:\n  a:\n    runs-on: ubuntu-latest\n    strategy:\n      matrix:\n        k: [x]\n        exclude:\n          - k: «zz»\n    steps:\n      - run: echo\n", `^value "zz" in "exclude" does not match in matrix "k"`},
+	{"action-unknown-input", "on: push\njobs:\n  a:\n    runs-on: ubuntu-latest\n    steps:\n      - uses: actions/checkout@v4\n        with:\n          ref: x\n          «nosuchinput»: 1\n", `^input "nosuchinput" is not defined in action "actions/checkout@v4"`},
+	{"action-ref-format", "on: push\njobs:\n  a:\n    runs-on: ubuntu-latest\n    steps:\n      - uses: «checkout»\n", `^specifying action "checkout" in invalid format`},
+	{"timeout-zero", "on: push\njobs:\n  a:\n    runs-on: ubuntu-latest\n    timeout-minutes: «0»\n    steps:\n      - run: echo\n", `^value at "timeout-minutes" must be greater than zero`},
+	{"credentials-password", "on: push\njobs:\n  a:\n    runs-on: ubuntu-latest\n    container:\n      image: img\n      credentials:\n        username: u\n        password: «hardcoded»\n    steps:\n      - run: echo\n", `^"password" section in "container" section should be specified via secrets`},
+	{"if-always-true", "on: push\njobs:\n  a:\n    runs-on: ubuntu-latest\n    steps:\n      - run: echo\n        if: «${{ false }} && true»\n", `^if: condition "\$\{\{ false \}\} && true" is always evaluated to true`},
+	{"workflow-call-local-ref", "on: push\njobs:\n  a:\n    uses: «./.github/workflows/x.yml@main»\n", `^reusable workflow call "\./\.github/workflows/x\.yml@main" at "uses" is not following the format`},
+	{"dispatch-default-not-in-options", "on:\n  workflow_dispatch:\n    inputs:\n      x:\n        type: choice\n        options: [p, q]\n        default: «zz»\njobs:\n  a:\n    runs-on: ubuntu-latest\n    steps:\n      - run: echo\n", `^default value "zz" of "x" input is not included in its options`},
+	{"call-input-type", "on:\n  workflow_call:\n    inputs:\n      x:\n        type: «nosuchtype»\njobs:\n  a:\n    runs-on: ubuntu-latest\n    steps:\n      - run: echo\n", `^invalid value "nosuchtype" for input type of workflow_call event`},
+	{"unexpected-key-container", "on: push\njobs:\n  a:\n    runs-on: ubuntu-latest\n    container:\n      image: img\n      «zzforeign»: 1\n    steps:\n      - run: echo\n", `^unexpected key "zzforeign" for "container" section`},
+	{"duplicate-key-env", "on: push\nenv:\n  AB: 1\n  «ab»: 2\njobs:\n  a:\n    runs-on: ubuntu-latest\n    steps:\n      - run: echo\n", `^key "ab" is duplicate`},
+}
+
+func c07RuleTemplates(r *vReport, idx *int64) {
+	for _, tp := range c07Templates {
+		i, j := strings.Index(tp.tmpl, "«"), strings.Index(tp.tmpl, "»")
+		before, inner, after := tp.tmpl[:i], tp.tmpl[i+len("«"):j], tp.tmpl[j+len("»"):]
+		lastLine := before[strings.LastIndex(before, "\n")+1:]
+		for quote := 0; quote <= 2; quote++ {
+			if quote == 0 && (strings.Contains(inner, "${{") || strings.Contains(inner, "* ") || strings.HasPrefix(inner, "./")) && strings.Contains(inner, "{") {
+				continue // not writable as a plain scalar
+			}
+			if quote == 0 && strings.Contains(inner, "* ") {
+				continue
+			}
+			if quote != 0 && strings.Trim(inner, "0123456789") == "" {
+				continue // a quoted number is a string
+			}
+			if quote == 0 && strings.ContainsAny(lastLine, "[{") && strings.ContainsAny(inner, "{}[],") {
+				continue
+			}
+			for above := 0; above <= 2; above++ {
+				*idx++
+				if !r.Mine(*idx) {
+					continue
+				}
+				scalar, _ := c07Quote(quote, inner)
+				head := strings.Repeat("# c\n", above) + before
+				line := strings.Count(head, "\n") + 1
+				col := len(head) - strings.LastIndex(head, "\n")
+				src := head + scalar + after
+				cs := &c07Case{Desc: fmt.Sprintf("template %s quote=%s above=%d", tp.name, c07QuoteNames[quote], above), Src: src, Line: line, Col: col, Msg: tp.msg, NLines: strings.Count(src, "\n")}
+				r.Begin(func() string { return cs.Desc })
+				c07Run(r, cs, "template/"+tp.name+"/"+c07QuoteNames[quote])
+			}
+		}
+	}
 }
